@@ -405,6 +405,19 @@ class Check(object):
             self.proof_ok = False
             self.proof_log = "fewer Print Assumptions than theorems in %s" % rel
             return False
+        if self.tier == "thorough" and not os.environ.get("VERIF_NO_COQCHK"):
+            # independent re-check of the compiled theorem file and everything it
+            # depends on (standard library included), with the axiom summary
+            lib = "SV.%s.%s" % (self.pid, props[:-2])
+            rc, out = sh("ulimit -s unlimited 2>/dev/null; coqchk -silent -o -Q . SV %s" % lib,
+                         timeout=3000, cwd=COQ)
+            summary = out[out.find("CONTEXT SUMMARY"):] if "CONTEXT SUMMARY" in out else out[-1500:]
+            self.extra["coqchk"] = {"cmd": "cd /verif/coq && coqchk -silent -o -Q . SV %s" % lib,
+                                    "exit": rc, "summary": summary.strip()[:3000]}
+            if rc != 0:
+                self.proof_ok = False
+                self.proof_log = "coqchk rejected %s: %s" % (lib, out[-2000:])
+                return False
         self.discharged = list(expected)
         self.proof_ok = True
         self.proof_log = ""
